@@ -12,9 +12,10 @@
 (*   ParseStmt(o)    set_default_flags_in_lexer + parse_statement          *)
 (*   FinishRun(o)    Output(...).format(), the list handed to the caller   *)
 (*                                                                         *)
-(* Binding = "perobject", ResetPerRun = TRUE is the contract (and the      *)
-(* repaired code); Binding = "global" / ResetPerRun = FALSE are the two    *)
-(* shipped defects, kept as named configurations (negative controls).      *)
+(* Binding = "perobject", ResetSet = Accs, Registry = "perrun" is the      *)
+(* contract (and the repaired code); Binding = "global" / ResetSet = {}    *)
+(* are the two shipped defects, Registry = "shared" a seeded one; all are  *)
+(* kept as named configurations (negative controls).                      *)
 (* Serves C14 (Repeatable, NoAliasing) and C15 (Isolation).                *)
 (***************************************************************************)
 EXTENDS Naturals, Sequences, FiniteSets, TLC, Json
@@ -28,11 +29,17 @@ CONSTANTS Obj,          \* parser objects (strings)
           ForeignAlter, \* objects whose last statement is an ALTER of a table defined only in Target(o)'s script
           Binding,      \* "perobject" | "global"
           Registry,     \* "perrun" | "shared": lifetime of the (schema, table) -> table registry of Output
-          ResetPerRun,  \* BOOLEAN
+          ResetSet,     \* which per-run accumulators parse_data re-initialises (subset of Accs)
+          Leaves,       \* which accumulators each object's script leaves non-empty when a run ends
           Granularity,  \* "stmt": any interleaving; "call": constructor and run() are atomic
           WithHist      \* BOOLEAN: carry the action history (generation configs only)
 
 None == "none"
+
+(* Per-run accumulators of Parser that __init__ creates: the reported comments list, the stack of   *)
+(* open block comments, the pending (unterminated) statement.                                      *)
+Accs == {"comments", "block_comments", "statement"}
+ResetPerRun == "comments" \in ResetSet
 
 VARIABLES pc,        \* [Obj -> {"new","lexed","built","running"}]
           sidx,      \* [Obj -> 0..NStmt]   statements parsed in the current run
@@ -45,10 +52,12 @@ VARIABLES pc,        \* [Obj -> {"new","lexed","built","running"}]
           listLen,   \* [Obj -> [0..MaxRuns -> Nat]]  length of each list object ever allocated by o
           cur,       \* [Obj -> Seq(stmt record)]  per-statement outcome of the current run
           curArgs,   \* [Obj -> Args \cup {None}]
+          dirty,     \* [Obj -> SUBSET Accs]  accumulators left non-empty by the object's previous run
+          carried,   \* [Obj -> SUBSET Accs]  leftovers the current run started with
           res,       \* [Obj -> Seq(result)]  results handed to the caller, in call order
           hist       \* Seq([a, o, arg])  (only when WithHist)
 
-vars == <<pc, sidx, nruns, gLexer, gParse, gReg, hasFlags, gen, listLen, cur, curArgs, res, hist>>
+vars == <<pc, sidx, nruns, gLexer, gParse, gReg, hasFlags, gen, listLen, cur, curArgs, dirty, carried, res, hist>>
 
 Log(a, o, arg) == hist' = IF WithHist THEN Append(hist, [a |-> a, o |-> o, arg |-> arg]) ELSE hist
 
@@ -64,6 +73,8 @@ Init ==
     /\ listLen = [o \in Obj |-> [g \in 0..MaxRuns |-> 0]]
     /\ cur = [o \in Obj |-> <<>>]
     /\ curArgs = [o \in Obj |-> None]
+    /\ dirty = [o \in Obj |-> {}]
+    /\ carried = [o \in Obj |-> {}]
     /\ res = [o \in Obj |-> <<>>]
     /\ hist = <<>>
 
@@ -77,14 +88,14 @@ BuildLexer(o) ==
     /\ gLexer' = o                               \* lex.lex() rebinds the module global
     /\ hasFlags' = [hasFlags EXCEPT ![o] = FALSE] \* a fresh Lexer has no flag attributes yet
     /\ Log("BuildLexer", o, None)
-    /\ UNCHANGED <<sidx, nruns, gParse, gReg, gen, listLen, cur, curArgs, res>>
+    /\ UNCHANGED <<sidx, nruns, gParse, gReg, gen, listLen, cur, curArgs, dirty, carried, res>>
 
 BuildParser(o) ==
     /\ pc[o] = "lexed" /\ MayMove(o)
     /\ pc' = [pc EXCEPT ![o] = "built"]
     /\ gParse' = o                               \* yacc.yacc() rebinds ply.yacc.parse
     /\ Log("BuildParser", o, None)
-    /\ UNCHANGED <<sidx, nruns, gLexer, gReg, hasFlags, gen, listLen, cur, curArgs, res>>
+    /\ UNCHANGED <<sidx, nruns, gLexer, gReg, hasFlags, gen, listLen, cur, curArgs, dirty, carried, res>>
 
 StartRun(o, a) ==
     /\ pc[o] = "built" /\ nruns[o] < MaxRuns /\ MayMove(o)
@@ -98,8 +109,9 @@ StartRun(o, a) ==
     /\ listLen' = IF ResetPerRun THEN [listLen EXCEPT ![o][nruns[o]] = 0] ELSE listLen
        \* process_line calls set_default_flags_in_lexer on o's OWN lexer before each statement
     /\ hasFlags' = [hasFlags EXCEPT ![o] = TRUE]
+    /\ carried' = [carried EXCEPT ![o] = dirty[o] \ ResetSet]
     /\ Log("StartRun", o, a)
-    /\ UNCHANGED <<nruns, gLexer, gParse, gReg, res>>
+    /\ UNCHANGED <<nruns, gLexer, gParse, gReg, dirty, res>>
 
 LexerUsed(o) == IF Binding = "global" THEN gLexer ELSE o
 ParserUsed(o) == IF Binding = "global" THEN gParse ELSE o
@@ -118,30 +130,33 @@ ParseStmt(o) ==
                    out |-> IF crash \/ raises THEN "raised" ELSE IF bad THEN "dropped" ELSE "entity"]
        IN  IF crash \/ raises
            THEN /\ res' = [res EXCEPT ![o] = Append(@, [stmts |-> Append(cur[o], rec), list |-> gen[o],
-                                                        args |-> curArgs[o],
+                                                        args |-> curArgs[o], carried |-> carried[o],
                                                         raised |-> IF crash THEN "AttributeError" ELSE "DDLParserError"])]
                 /\ pc' = [pc EXCEPT ![o] = "built"]
                 /\ nruns' = [nruns EXCEPT ![o] = @ + 1]
+                /\ dirty' = [dirty EXCEPT ![o] = Leaves \cup {"statement"}]   \* the aborted statement stays pending
                 /\ UNCHANGED <<sidx, cur, listLen>>
            ELSE /\ cur' = [cur EXCEPT ![o] = Append(@, rec)]
                 /\ sidx' = [sidx EXCEPT ![o] = @ + 1]
                    \* each statement line carries one trailing comment: appended to o.comments
                 /\ listLen' = [listLen EXCEPT ![o][gen[o]] = @ + 1]
-                /\ UNCHANGED <<res, pc, nruns>>
+                /\ UNCHANGED <<res, pc, nruns, dirty>>
     /\ Log("ParseStmt", o, None)
-    /\ UNCHANGED <<gLexer, gParse, gReg, hasFlags, gen, curArgs>>
+    /\ UNCHANGED <<gLexer, gParse, gReg, hasFlags, gen, curArgs, carried>>
 
 FinishRun(o) ==
     /\ pc[o] = "running" /\ sidx[o] = NStmt /\ MayMove(o)
     /\ LET known == IF Registry = "shared" THEN gReg \cup {o} ELSE {o}
            unknown == o \in ForeignAlter /\ Target(o) \notin known   \* ValueError: table does not exist
        IN  res' = [res EXCEPT ![o] = Append(@, [stmts |-> cur[o], list |-> gen[o], args |-> curArgs[o],
+                                                carried |-> carried[o],
                                                 raised |-> IF unknown THEN "ValueError" ELSE "no"])]
     /\ gReg' = IF Registry = "shared" THEN gReg \cup {o} ELSE gReg
     /\ pc' = [pc EXCEPT ![o] = "built"]
     /\ nruns' = [nruns EXCEPT ![o] = @ + 1]
+    /\ dirty' = [dirty EXCEPT ![o] = Leaves]
     /\ Log("FinishRun", o, None)
-    /\ UNCHANGED <<sidx, gLexer, gParse, hasFlags, gen, listLen, cur, curArgs>>
+    /\ UNCHANGED <<sidx, gLexer, gParse, hasFlags, gen, listLen, cur, curArgs, carried>>
 
 Next == \E o \in Obj :
            \/ BuildLexer(o) \/ BuildParser(o) \/ ParseStmt(o) \/ FinishRun(o)
@@ -152,7 +167,7 @@ Spec == Init /\ [][Next]_vars
 -----------------------------------------------------------------------------
 (* What the caller holding result i of object o sees NOW (the comments list  *)
 (* is returned by reference).                                                *)
-Observed(o, i) == [stmts |-> res[o][i].stmts,
+Observed(o, i) == [stmts |-> res[o][i].stmts, carried |-> res[o][i].carried,
                    ncomments |-> listLen[o][res[o][i].list],
                    raised |-> res[o][i].raised]
 
@@ -163,7 +178,7 @@ SoloStmt(o, k) == [lexer |-> o, parser |-> o,
                    out |-> IF o \in BadLast /\ k = NStmt
                            THEN (IF o \in SilentObjs THEN "dropped" ELSE "raised") ELSE "entity"]
 Solo(o) == [stmts |-> [k \in 1..NStmt |-> SoloStmt(o, k)],
-            ncomments |-> NStmt, raised |-> SoloRaises(o)]
+            carried |-> {}, ncomments |-> NStmt, raised |-> SoloRaises(o)]
 
 TypeOK ==
     /\ pc \in [Obj -> {"new", "lexed", "built", "running"}]
@@ -178,7 +193,8 @@ Isolation == \A o \in Obj : \A i \in DOMAIN res[o] :
 
 \* C14: every run, whatever preceded it, returns what a fresh object returns
 Repeatable == \A o \in Obj : \A i \in DOMAIN res[o] :
-                 res[o][i].raised = "no" => Observed(o, i).ncomments = Solo(o).ncomments
+                 /\ res[o][i].carried = {}
+                 /\ res[o][i].raised = "no" => Observed(o, i).ncomments = Solo(o).ncomments
 
 \* C14: a result already handed out never changes afterwards
 NoAliasing == [][\A o \in Obj : \A i \in DOMAIN res[o] : Observed(o, i)' = Observed(o, i)]_vars
@@ -193,5 +209,5 @@ Emit == (WithHist /\ Done) =>
           PrintT(<<"BEH", ToJson([hist |-> hist,
                                   obs |-> [o \in Obj |-> [i \in DOMAIN res[o] |-> Observed(o, i)]]])>>)
 
-View == <<pc, sidx, nruns, gLexer, gParse, gReg, hasFlags, gen, listLen, cur, curArgs, res>>
+View == <<pc, sidx, nruns, gLexer, gParse, gReg, hasFlags, gen, listLen, cur, curArgs, dirty, carried, res>>
 =============================================================================
